@@ -20,12 +20,15 @@
 package main
 
 import (
+	"encoding/hex"
 	"encoding/json"
 	"flag"
 	"fmt"
 	"hash/fnv"
 	"os"
+	"strings"
 	"sync"
+	"unicode/utf8"
 
 	"verifharness/vutil"
 
@@ -57,7 +60,43 @@ type record struct {
 	Nil   int      `json:"nil"`
 	H     []string `json:"h"`
 	Ev    [][]int  `json:"ev"`
-	Tab   []string `json:"tab"` // content of id k is Tab[k-1] (not read by TLC; for replay)
+	Tab   tabT     `json:"tab"` // content of id k is Tab[k-1] (not read by TLC; for replay)
+}
+
+// tabT is the content table of a record.  JSON cannot carry arbitrary bytes in a string (invalid UTF-8 would be
+// replaced), so such entries travel as "\x00hex:" + hexadecimal digits.
+type tabT []string
+
+const hexMark = "\x00hex:"
+
+func (t tabT) MarshalJSON() ([]byte, error) {
+	out := make([]string, len(t))
+	for i, s := range t {
+		if utf8.ValidString(s) && !strings.HasPrefix(s, hexMark) {
+			out[i] = s
+		} else {
+			out[i] = hexMark + hex.EncodeToString([]byte(s))
+		}
+	}
+	return json.Marshal(out)
+}
+
+func (t *tabT) UnmarshalJSON(b []byte) error {
+	var in []string
+	if err := json.Unmarshal(b, &in); err != nil {
+		return err
+	}
+	for i, s := range in {
+		if strings.HasPrefix(s, hexMark) {
+			d, err := hex.DecodeString(s[len(hexMark):])
+			if err != nil {
+				return err
+			}
+			in[i] = string(d)
+		}
+	}
+	*t = in
+	return nil
 }
 
 func render(t text, tab []string) []byte {
